@@ -36,8 +36,8 @@ CHECKS = {
          "seeded search; Connect's result is classified against the run's history: never nil, the context's error iff cancelled, permanent failures at once, otherwise only when the budget is exhausted and with the last attempt's own error."),
  "C12": ("exploration", "4 C12", "deterministic simulation on the fake clock (testing/synctest): real back-off timers and jitter PRNG, OnRetry values and attempt instants vs. a reference recurrence",
          "seeded search over Backoff settings and attempt histories on simulated time (minute-long waits cost microseconds); waits, counts, resets, server retry overrides and MaxElapsedTime are compared with a reference recurrence written from the field documentation."),
- "C13": ("exploration", "4 C13", "deterministic simulation: subscriber tasks add/remove callbacks while the Connection dispatches chunk-by-chunk under the seeded scheduler (lock hooks); must / may / must-not sets per (callback, event)",
-         "seeded search over subscription histories and interleavings with dispatch. The data-race clause of C13 is NOT decided (no -race build of the simulated binary is run; see DESIGN.md): only routing, at-most-once, order and never-after-unsubscribe are."),
+ "C13": ("exploration", "4 C13", "deterministic simulation: subscriber tasks add/remove callbacks while the Connection dispatches chunk-by-chunk under the seeded scheduler (lock hooks); must / may / must-not sets per (callback, event) + lockset data-race check",
+         "seeded search over subscription histories and interleavings with dispatch: routing, at-most-once, order, never-after-unsubscribe; data-race freedom is decided by the Eraser lockset discipline the simulator runs over instrumented map accesses and pointer-field writes with its own lock model (DESIGN.md 11), not by the Go race detector."),
  "C15": ("fault_enumeration", "4 C15", "fault enumeration with a simulated writer: the fault-free encoding's Write calls are recorded, then every Write is failed in turn after 0 / 1 / len-1 / a drawn number of accepted bytes; fault-free round trip and encoding identity on the same messages",
          "for each generated message the set of failure points (every Write call x accepted-byte counts) is enumerated completely; messages themselves are sampled from generated public-API call sequences. Thin simulator dimension (a failing writer), stated as such."),
  "C16": ("fault_enumeration", "4 C16", "fault enumeration with a recording, fault-injecting http.ResponseWriter of every shape: each position of the fault-free Write/Flush call log is failed in turn; ServeHTTP against a recording Provider",
